@@ -211,6 +211,8 @@ class Trace:
                         s, new = self._node(ctx, local_target, None, None, virt=('summary', bb, fn.qual))
                         if new:
                             s.events = self._summary_events(local_target)
+                            for e in s.events:
+                                e['node'] = s.id
                             self.summaries.append(s.id)
                         self.succ[n.id].add(s.id)
                         # summary may repeat
